@@ -18,7 +18,7 @@ def apply(data: bytes, x: dict) -> bytes:
     mode = x.get("mode", "gaps")
     out = []
     for n, b in pkgxform.read_members(data):
-        if _SLIDE.match(n) and mode in ("gaps", "high", "dups", "nonnumeric", "names", "mixed", "foreign"):
+        if _SLIDE.match(n) and mode in ("gaps", "high", "dups", "nonnumeric", "names", "mixed", "foreign", "padded"):
             b = _mutate_slide(b, r, mode)
         elif n == "ppt/presentation.xml" and mode in ("slideids-max", "slideids-gaps", "mixed"):
             b = _mutate_pres(b, r, mode)
@@ -30,7 +30,7 @@ def _mutate_slide(blob: bytes, r: random.Random, mode: str) -> bytes:
     root = refpkg.parse(blob)
     cnv = [el for el in root.iter(P + "cNvPr")]
     shapes = cnv[1:]  # first is the spTree's own (id 1)
-    m = mode if mode != "mixed" else r.choice(["gaps", "high", "dups", "nonnumeric", "names", "foreign"])
+    m = mode if mode != "mixed" else r.choice(["gaps", "high", "dups", "nonnumeric", "names", "foreign", "padded"])
     if m == "gaps":
         nxt = 2
         for el in shapes:
@@ -54,6 +54,12 @@ def _mutate_slide(blob: bytes, r: random.Random, mode: str) -> bytes:
             t.set("id", r.choice(["abc-123", "{GUID-1}", "rId7", "12x", "-5", "\u0661\u0662", "\u00b2"]))
             t2 = etree.SubElement(ext, "{urn:verif:x}thing")
             t2.set("id", str(r.choice([50, 99, 7])))
+    elif m == "padded":
+        # the same numbers in other lexical forms of xsd:unsignedInt: leading zeros, an explicit plus sign is NOT allowed so only zeros
+        for el in shapes:
+            v = el.get("id") or ""
+            if v.isdigit():
+                el.set("id", "0" * r.choice([1, 2, 3]) + v)
     elif m == "foreign":
         # ids carried by elements that are not shapes: an animation timing tree (p:cTn/@id) as PowerPoint writes it, numbered
         # just above (or interleaved with) the shape ids
